@@ -459,4 +459,200 @@ theorem tableGet_genericTable (sc : Scope) (key : Str) (l : List Rec) :
       · simp [hf, hk, tableGet_tableAdd, List.filter_cons]
     · simp [hf, List.filter_cons]
 
+
+/-! ### suffix extensions (`_bufferify`, `fortran_generic` suffixes) -/
+
+/-- A single `_token`: an underscore followed by characters other than `_`. -/
+def isTok : Str → Bool
+  | '_' :: w => !w.contains '_'
+  | _ => false
+
+/-- Empty, or beginning with an underscore. -/
+def extLike : Str → Bool
+  | [] => true
+  | c :: _ => c == '_'
+
+theorem noUs_cancel : ∀ (wa wb x y : Str), (∀ c ∈ wa, c ≠ '_') → (∀ c ∈ wb, c ≠ '_') →
+    extLike x = true → extLike y = true → wa ++ x = wb ++ y → wa = wb := by
+  intro wa
+  induction wa with
+  | nil =>
+    intro wb x y _ hb hx _ h
+    cases wb with
+    | nil => rfl
+    | cons d wb =>
+      simp only [List.nil_append, List.cons_append] at h
+      subst h
+      simp only [extLike, beq_iff_eq] at hx
+      exact absurd hx (hb d (by simp))
+  | cons c wa ih =>
+    intro wb x y ha hb hx hy h
+    cases wb with
+    | nil =>
+      simp only [List.nil_append, List.cons_append] at h
+      subst h
+      simp only [extLike, beq_iff_eq] at hy
+      exact absurd hy (ha c (by simp))
+    | cons d wb =>
+      simp only [List.cons_append, List.cons.injEq] at h
+      obtain ⟨rfl, h⟩ := h
+      rw [ih wb x y (fun c hc => ha c (by simp [hc])) (fun c hc => hb c (by simp [hc])) hx hy h]
+
+theorem tok_shape {a : Str} (h : isTok a = true) : ∃ w, a = '_' :: w ∧ ∀ c ∈ w, c ≠ '_' := by
+  cases a with
+  | nil => simp [isTok] at h
+  | cons a0 w =>
+    by_cases h0 : a0 = '_'
+    · subst h0
+      refine ⟨w, rfl, ?_⟩
+      simp only [isTok, Bool.not_eq_true', List.contains_eq_mem, decide_eq_false_iff_not] at h
+      intro c hc e
+      exact h (e ▸ hc)
+    · exfalso
+      unfold isTok at h
+      split at h
+      · rename_i heq
+        simp only [List.cons.injEq] at heq
+        exact h0 heq.1
+      · simp at h
+
+theorem tok_cancel {a b x y : Str} (ha : isTok a = true) (hb : isTok b = true)
+    (hx : extLike x = true) (hy : extLike y = true) (h : a ++ x = b ++ y) : a = b := by
+  obtain ⟨wa, rfl, ha'⟩ := tok_shape ha
+  obtain ⟨wb, rfl, hb'⟩ := tok_shape hb
+  simp only [List.cons_append, List.cons.injEq, true_and] at h
+  rw [noUs_cancel wa wb x y ha' hb' hx hy h]
+
+theorem autoSuffix_isTok (n : Nat) : isTok (autoSuffix n) = true := by
+  simp only [autoSuffix, isTok, Bool.not_eq_true', List.contains_eq_mem, decide_eq_false_iff_not]
+  intro h
+  have := decimal_digits n _ h
+  exact absurd this (by decide)
+
+theorem bufSuffix_extLike : extLike bufSuffix = true := by decide
+
+/-- Name of a variant of a record: the function suffix extended by `e`. -/
+def nameExt (pre : Str) (r : Rec) (e : Str) : Str :=
+  pre ++ (unCamel r.name ++ (r.sfx ++ (e ++ r.tsfx)))
+
+/-- Hypotheses on the suffix extensions `ext r` attached to the visible entry points. -/
+structure ExtOK (ext : Rec → List Str) (l : List Rec) : Prop where
+  /-- every extension is empty or starts with `_` -/
+  ext_like : ∀ r ∈ l, ∀ e ∈ ext r, extLike e = true
+  /-- the extensions of one entry point are pairwise distinct -/
+  ext_nodup : ∀ r ∈ l, (ext r).Nodup
+  /-- templated entry points are not extended -/
+  ext_templated : ∀ r ∈ l, eligible r = false → ∀ e ∈ ext r, e = []
+  /-- explicit suffixes are single `_token`s -/
+  local_tok : ∀ r ∈ l, eligible r = true → r.sfxLocal = true → isTok r.sfx = true
+
+theorem pair_names_ne_ext {vis : Wrap → Bool} {ext : Rec → List Str} {seen rest : List Rec} {r b : Rec}
+    (pre : Str) (ok : CoreOK vis (seen ++ r :: rest)) (xo : ExtOK ext (seen ++ r :: rest))
+    (hb : b ∈ rest) {i : Nat} (hi : (seen ++ [r]).countP (inGroup b.key) ≤ i)
+    (vr : vis r.wrap = true) (vb : vis b.wrap = true)
+    {e1 e2 : Str} (he1 : e1 ∈ ext r) (he2 : e2 ∈ ext b) :
+    nameExt pre (renumber ((seen ++ r :: rest).countP (inGroup r.key)) (seen.countP (inGroup r.key)) r) e1
+      ≠ nameExt pre (renumber ((seen ++ r :: rest).countP (inGroup b.key)) i b) e2 := by
+  have hrm : r ∈ seen ++ r :: rest := by simp
+  have hbm : b ∈ seen ++ r :: rest := by simp [hb]
+  have hED := (List.pairwise_cons.1 (List.pairwise_append.1 ok.explicit_distinct).2.1).1 b hb
+  have hTA := (List.pairwise_cons.1 (List.pairwise_append.1 ok.templated_alone).2.1).1 b hb
+  have hx1 := xo.ext_like r hrm e1 he1
+  have hx2 := xo.ext_like b hbm e2 he2
+  unfold nameExt
+  by_cases hn : r.name = b.name
+  · simp only [renumber_name, renumber_tsfx, hn]
+    intro h
+    have h := List.append_cancel_left (List.append_cancel_left h)
+    by_cases he : eligible r = true ∧ eligible b = true
+    · obtain ⟨her, heb⟩ := he
+      have hk : r.key = b.key := (ok.key_name r hrm b hbm her heb).2 hn
+      have gr : inGroup b.key r = true := by simp [inGroup, her, hk]
+      have gb : inGroup b.key b = true := by simp [inGroup, heb]
+      have hsize : (seen ++ r :: rest).countP (inGroup b.key) > 1 := by
+        rw [List.countP_append, List.countP_cons]
+        have : 0 < rest.countP (inGroup b.key) := List.countP_pos_iff.2 ⟨b, hb, gb⟩
+        simp only [gr, if_true]; omega
+      have hgt : seen.countP (inGroup b.key) < i := by
+        rw [List.countP_append] at hi
+        simp [gr] at hi; omega
+      rw [ok.eligible_tsfx r hrm her, ok.eligible_tsfx b hbm heb, List.append_nil, List.append_nil] at h
+      rw [hk] at h
+      have fin : ∀ s1 s2 : Str, isTok s1 = true → isTok s2 = true → s1 ≠ s2 → s1 ++ e1 = s2 ++ e2 → False :=
+        fun s1 s2 t1 t2 ne hh => ne (tok_cancel t1 t2 hx1 hx2 hh)
+      cases hlr : r.sfxLocal <;> cases hlb : b.sfxLocal
+      · rw [renumber_sfx_auto her hsize hlr, renumber_sfx_auto heb hsize hlb] at h
+        exact fin _ _ (autoSuffix_isTok _) (autoSuffix_isTok _)
+          (fun e => by have := autoSuffix_inj e; omega) h
+      · rw [renumber_sfx_auto her hsize hlr, renumber_sfx_local hlb] at h
+        exact fin _ _ (autoSuffix_isTok _) (xo.local_tok b hbm heb hlb)
+          (fun e => isAuto_ne (ok.explicit_not_auto b hbm heb hlb) e.symm) h
+      · rw [renumber_sfx_local hlr, renumber_sfx_auto heb hsize hlb] at h
+        exact fin _ _ (xo.local_tok r hrm her hlr) (autoSuffix_isTok _)
+          (fun e => isAuto_ne (ok.explicit_not_auto r hrm her hlr) e) h
+      · rw [renumber_sfx_local hlr, renumber_sfx_local hlb] at h
+        exact fin _ _ (xo.local_tok r hrm her hlr) (xo.local_tok b hbm heb hlb)
+          (hED her heb hk hlr hlb) h
+    · have hor : eligible r = false ∨ eligible b = false := by
+        cases h1 : eligible r <;> cases h2 : eligible b <;> simp_all
+      obtain ⟨h1, h2, h3⟩ := hTA hn vr vb hor
+      rw [renumber_sfx_templated h1, renumber_sfx_templated h2,
+        xo.ext_templated r hrm h1 e1 he1, xo.ext_templated b hbm h2 e2 he2] at h
+      exact h3 (by simpa using h)
+  · simp only [renumber_name]
+    intro h
+    have h := List.append_cancel_left h
+    exact append_ne_of_not_prefix (ok.prefix_free r hrm b hbm hn)
+      (ok.prefix_free b hbm r hrm (Ne.symm hn)) h
+
+theorem numberAux_pairwise_ext {vis : Wrap → Bool} {ext : Rec → List Str}
+    (hext : ∀ s i r, ext (renumber s i r) = ext r) (pre : Str) (all : List Rec) :
+    ∀ (rest seen : List Rec), all = seen ++ rest → CoreOK vis all → ExtOK ext all →
+      (numberAux all seen rest).Pairwise
+        (fun a' b' => vis a'.wrap = true → vis b'.wrap = true →
+          ∀ e1 ∈ ext a', ∀ e2 ∈ ext b', nameExt pre a' e1 ≠ nameExt pre b' e2) := by
+  intro rest
+  induction rest with
+  | nil => intro _ _ _ _; simp [numberAux]
+  | cons r rest ih =>
+    intro seen hall ok xo
+    simp only [numberAux]
+    refine List.pairwise_cons.2 ⟨?_, ih (seen ++ [r]) (by simp [hall]) ok xo⟩
+    intro b' hb' va vb e1 he1 e2 he2
+    obtain ⟨b, hb, i, hi, e⟩ := mem_numberAux _ _ hb'
+    subst e
+    simp only [renumber_wrap] at va vb
+    rw [hext] at he1 he2
+    subst hall
+    exact pair_names_ne_ext pre ok xo hb hi va vb he1 he2
+
+theorem nameExt_inj (pre : Str) (r : Rec) {e1 e2 : Str} (h : nameExt pre r e1 = nameExt pre r e2) : e1 = e2 := by
+  unfold nameExt at h
+  exact List.append_cancel_right
+    (List.append_cancel_left (List.append_cancel_left (List.append_cancel_left h)))
+
+/-- All variant names (`function_suffix` extended by the extensions of each visible entry
+    point) are pairwise distinct after overload numbering. -/
+theorem number_ext_names_nodup {vis : Wrap → Bool} {ext : Rec → List Str}
+    (hext : ∀ s i r, ext (renumber s i r) = ext r) (pre : Str) (l : List Rec)
+    (ok : CoreOK vis l) (xo : ExtOK ext l) :
+    (((number l).filter (fun r => vis r.wrap)).flatMap
+        (fun r => (ext r).map (nameExt pre r))).Nodup := by
+  unfold List.Nodup
+  rw [List.pairwise_flatMap]
+  constructor
+  · intro r' hr'
+    have hm := (List.mem_filter.1 hr').1
+    obtain ⟨r, hr, i, _, e⟩ := mem_numberAux (all := l) l [] hm
+    rw [List.pairwise_map]
+    have hn : (ext r').Nodup := by rw [e, hext]; exact xo.ext_nodup r hr
+    exact hn.imp (fun hne h => hne (nameExt_inj pre r' h))
+  · rw [List.pairwise_filter]
+    refine (numberAux_pairwise_ext hext pre l l [] (by simp) ok xo).imp ?_
+    intro a b h va vb x hx y hy
+    simp only [List.mem_map] at hx hy
+    obtain ⟨e1, he1, rfl⟩ := hx
+    obtain ⟨e2, he2, rfl⟩ := hy
+    exact h va vb e1 he1 e2 he2
+
 end Shroud.Names
